@@ -311,6 +311,11 @@ Definition ABT_xstream_create_sched : routine :=
   R0 [SNullOut; SGuard "sched.used" 0 ret;
       SCall "xs" (xstream_create (mkX (Some "sched.used") None false false None)) ret;
       SCommit].
+(* stream.c ABT_xstream_create_with_rank with a scheduler of the caller (the caller keeps it on failure) *)
+Definition ABT_xstream_create_sched_rank (rank : string) : routine :=
+  R0 [SNullOut; SGuard "sched.used" 0 ret;
+      SCall "xs" (xstream_create (mkX (Some "sched.used") (Some rank) false false None)) ret;
+      SCommit].
 (* stream.c ABT_xstream_create_basic(BASIC, {pool0, NULL}) *)
 Definition ABT_xstream_create_basic_x : routine :=
   R0 [SNullOut;
@@ -492,6 +497,7 @@ Definition scenarios : list scen := [
   SK "xstream_create_sched" [("sched.used", 0%Z)] ABT_xstream_create_sched ["sched"] true;
   S0 "xstream_create_basic" ABT_xstream_create_basic_x true;
   SK "xstream_create_rank" [("rank5.taken", 0%Z)] (ABT_xstream_create_null (Some "rank5.taken") false None) [] true;
+  SK "xstream_create_rank_sched" [("sched.used", 0%Z); ("rank5.taken", 0%Z)] (ABT_xstream_create_sched_rank "rank5.taken") ["sched"] true;
   SK "xstream_create_maxxs" [("rank1.taken", 0%Z)] (ABT_xstream_create_null (Some "rank1.taken") true None) [] true;
   S0 "xstream_create_populated" (ABT_xstream_create_null None false None) true;
   SM "xstream_create_refill" (ABT_xstream_create_null None false (Some "small_stack_page")) true;
